@@ -13,7 +13,7 @@
    The checkers [linear_path_valid], [ssa_path_valid], [tree_complete_b] are what the
    check runs, inside Coq, on every path / tree the real optimizers return. *)
 From Coq Require Import Lia Permutation.
-From Ctg Require Import Base Net PathValid Processor BaseFacts PathValidFacts ProcessorFacts BuilderFacts.
+From Ctg Require Import Base Net PathValid Processor BaseFacts PathValidFacts ProcessorFacts BuilderFacts SsaLinearFacts.
 
 (* ---- path_valid_sound -------------------------------------------------------- *)
 (* an accepted linear path: every step references existing distinct positions, the
@@ -69,24 +69,34 @@ Theorem C05_tree_complete_b_sound : forall n ch, tree_complete_b n ch = true -> 
 Proof. exact tree_complete_b_sound. Qed.
 Print Assumptions C05_tree_complete_b_sound.
 
-(* ---- processor_paths_valid (partial) ------------------------------------------ *)
+(* ---- ssa_to_linear ------------------------------------------------------------- *)
+(* path_basic.ssa_to_linear (bisect_left on the ascending ids list, positions popped in reverse)
+   maps every valid SSA path prefix to a valid linear path prefix leaving the same number of
+   tensors; a complete SSA path to a complete linear path *)
+Theorem C05_ssa_to_linear_valid : forall n p av nx, ssa_run any_len (seq 0 n) n p = Some (av, nx) ->
+  exists q, ssa_to_linear n p = Some q /\ lin_run any_len n q = Some (length av).
+Proof. exact ssa_to_linear_valid. Qed.
+Print Assumptions C05_ssa_to_linear_valid.
+
+(* ---- processor_paths_valid --------------------------------------------------------- *)
 (* Every mutation ContractionProcessor makes to (nodes, ssa, ssa_path) is contract_nodes(i, j)
    or the single-term step of simplify_single_terms (abstract machine of Model/Processor.v; heap
    order, scores, legs are abstracted: [os] is ANY sequence of such operations that does not
    hit a KeyError, [choose] ANY rule picking two distinct present nodes in
-   optimize_remaining_by_size).  Then one node is left and the recorded ssa_path is a valid
-   complete SSA path (hence, by C05_ssa_path_valid_sound / C05_from_ssa_path_complete, a
-   complete contraction).  Covers greedy, random-greedy, optimal, disconnected leftovers, N = 1, 2.
-   PARTIAL: (i) that the concrete passes only emit such operations is tied by the executed
-   correspondence (cp_simplify / cp_greedy / cp_remaining vs the code), not by a refinement
-   proof; (ii) validity of ssa_to_linear's output is not proved: the model ssa_to_linear is
-   compared output-for-output and every returned linear path is judged by linear_path_valid. *)
-Theorem C05_processor_paths_valid_partial : forall n os a choose fuel, 1 <= n ->
+   optimize_remaining_by_size).  Then one node is left, the recorded ssa_path is a valid complete
+   SSA path and ssa_to_linear turns it into a valid complete linear path.
+   Covers greedy, random-greedy, optimal, disconnected leftovers, N = 1, 2. *)
+Theorem C05_processor_paths_valid : forall n os a choose fuel, 1 <= n ->
   a_run (a_init n) os = Some a -> choose_ok choose -> length (a_present a) <= S fuel ->
   exists a', a_remaining choose fuel a = Some a' /\ length (a_present a') = 1 /\
-             ssa_path_valid n (a_path a') = true.
-Proof. exact processor_ssa_path_valid. Qed.
-Print Assumptions C05_processor_paths_valid_partial.
+             ssa_path_valid n (a_path a') = true /\
+             exists q, ssa_to_linear n (a_path a') = Some q /\ linear_path_valid n q = true.
+Proof.
+  intros n os a choose fuel Hn R Hc L.
+  destruct (processor_ssa_path_valid n os a choose fuel Hn R Hc L) as (a' & E & L1 & V).
+  exists a'. repeat split; try assumption. now apply ssa_to_linear_complete.
+Qed.
+Print Assumptions C05_processor_paths_valid.
 
 (* ---- partition_builder_complete ------------------------------------------------ *)
 (* core.separate: the groups are non-empty and together are exactly the argument *)
